@@ -1197,7 +1197,11 @@ func (fc *FuncCtx) goStmt(fr *Frame, st *State, x *ssa.Go) {
 	fc.ghostAdd(st, "spawned", 1)
 	if mc, ok := x.Call.Value.(*ssa.MakeClosure); ok {
 		fr.spawned = append(fr.spawned, mc)
+		fc.goInvariant(fr, st, mc, x.Pos(), false, "go statement")
 		fc.havocClosure(fr, st, mc, "effects of the goroutine started at "+fc.p.pos(x.Pos())+" are havocked")
+		fc.goInvariant(fr, st, mc, x.Pos(), true, "go statement")
+	} else if fr.isTop && fc.contract != nil && len(fc.contract.GoInvs) > 0 {
+		unsupp("goinv: the go statement at %s does not start a function literal", fc.p.pos(x.Pos()))
 	} else if callee := x.Call.StaticCallee(); callee != nil {
 		mi := fc.modOfFunc(callee, 1)
 		var hs []string
@@ -1219,9 +1223,101 @@ func (fc *FuncCtx) goStmt(fr *Frame, st *State, x *ssa.Go) {
 }
 
 // rehavocSpawned: at a synchronisation point the goroutines started by this frame may have run further
-func (fc *FuncCtx) rehavocSpawned(fr *Frame, st *State) {
-	for _, mc := range fr.spawned {
+func (fc *FuncCtx) rehavocSpawned(fr *Frame, st *State, pos token.Pos) {
+	fc.goInvariant(fr, st, nil, pos, false, "WaitGroup.Wait")
+	for _, mc := range spawnedLiterals(fr.fn) {
 		fc.havocClosure(fr, st, mc, "effects of the goroutines started by this function are havocked again at each WaitGroup.Wait")
+	}
+	fc.goInvariant(fr, st, nil, pos, true, "WaitGroup.Wait")
+}
+
+// spawnedLiterals: every function literal started by a `go` statement anywhere in fn, in source order. Static on purpose:
+// the executor may reach a Wait through the exit edge of a loop before it has executed the `go` statement in the body
+// of that loop, so a list filled while executing would miss the goroutines started in loops.
+func spawnedLiterals(fn *ssa.Function) []*ssa.MakeClosure {
+	var out []*ssa.MakeClosure
+	for _, b := range fn.Blocks {
+		for _, ins := range b.Instrs {
+			if g, ok := ins.(*ssa.Go); ok {
+				if mc, ok := g.Call.Value.(*ssa.MakeClosure); ok {
+					out = append(out, mc)
+				}
+			}
+		}
+	}
+	sort.Slice(out, func(i, j int) bool { return out[i].Pos() < out[j].Pos() })
+	return out
+}
+
+// goInvariant implements the `goinv E` clauses of the function under contract (rely/guarantee with ONE shared
+// invariant). Abstraction (the one already used for the goroutine bodies): every goroutine body runs as an atomic
+// sequential step at some point between its `go` statement and the WaitGroup.Wait that joins it.
+//   - after == false (before the effects of the goroutines are havocked, at a `go` statement or at a Wait): every
+//     clause is an OBLIGATION in the current state of the spawning function;
+//   - the function literal started (mc != nil) must carry exactly the goinv clauses as `preserves` clauses (same
+//     text), must have no other precondition and must be proved, not trusted: its own verification then shows that one
+//     run of its body, started in ANY state satisfying the invariant, re-establishes it;
+//   - after == true (after the havoc): every clause is ASSUMED.
+// Hence the invariant holds when the first goroutine is started, is kept by every atomic step of every goroutine
+// (each literal is checked at its own go statement, so all of them preserve all clauses) and by the spawning function
+// at each of its synchronisation points: it holds after the join. A clause that names a local that is not declared yet
+// at a go statement is neither proved nor assumed there (it is not a statement about that state; the literals started
+// earlier still have to preserve it); at a Wait every clause must be in scope.
+func (fc *FuncCtx) goInvariant(fr *Frame, st *State, mc *ssa.MakeClosure, pos token.Pos, after bool, where string) {
+	if !fr.isTop || fc.contract == nil || len(fc.contract.GoInvs) == 0 || st.dead {
+		return
+	}
+	c := fc.contract
+	norm := func(s string) string { return strings.Join(strings.Fields(s), " ") }
+	if mc != nil && !after {
+		cf := mc.Fn.(*ssa.Function)
+		lc := fc.p.contractOf(cf)
+		if lc == nil {
+			unsupp("goinv: the function literal %s started at %s has no contract", funcKey(cf), fc.p.pos(pos))
+		}
+		if lc.Trusted {
+			unsupp("goinv: the contract of the function literal %s must be proved, not trusted", funcKey(cf))
+		}
+		if len(lc.Requires) != len(lc.Preserves) {
+			unsupp("goinv: the function literal %s started at %s has a precondition that is not a `preserves` clause (nothing establishes it when the goroutine runs)", funcKey(cf), fc.p.pos(pos))
+		}
+		have := map[string]bool{}
+		for _, pc := range lc.Preserves {
+			have[norm(pc.Text)] = true
+		}
+		want := map[string]bool{}
+		for _, gc := range c.GoInvs {
+			want[norm(gc.Text)] = true
+			if !have[norm(gc.Text)] {
+				unsupp("goinv: the function literal %s started at %s lacks the clause `preserves %s`", funcKey(cf), fc.p.pos(pos), gc.Text)
+			}
+		}
+		for _, pc := range lc.Preserves {
+			if !want[norm(pc.Text)] {
+				unsupp("goinv: `preserves %s` of the function literal %s is not a goinv clause of %s (it is assumed at the entry of the goroutine: the spawning function must establish it)", pc.Text, funcKey(cf), funcKey(fr.fn))
+			}
+		}
+	}
+	for _, gc := range c.GoInvs {
+		env := fc.envFor(fr, st, nil, true)
+		t, err := env.ElabBool(gc.Expr)
+		if err != nil {
+			if mc != nil && strings.Contains(err.Error(), "unknown identifier") {
+				if !after {
+					fc.note(fmt.Sprintf("goinv clause `%s` is not in scope at the go statement at %s (%v): neither proved nor assumed there", gc.Text, fc.p.pos(pos), err))
+				}
+				continue
+			}
+			panic(elabErr{fmt.Sprintf("%s:%d: goinv at %s: %v", c.File, gc.Line, fc.p.pos(pos), err)})
+		}
+		if after {
+			st.assume(t)
+		} else {
+			fc.addSplit(fr, st, "goinv", gc.Text, t, pos, "shared invariant of the goroutines holds at this "+where+" (before their effects are havocked)")
+		}
+	}
+	if after {
+		fc.note("goinv: the shared invariant is assumed after the havoc at the " + where + " at " + fc.p.pos(pos) + " (proved before it; preserved by every goroutine body, see the `preserves` clauses of the function literals)")
 	}
 }
 
